@@ -93,7 +93,9 @@ def impl_case(case):
         for c, v in zip(ms.multichoices, combo):
             t[c.start:c.end] = v
         variants.append("".join(t))
-    soft = [c for c in problem.constraints if not c.enforced_by_nucleotide_restrictions]
+    # every constraint is re-evaluated, also those flagged "enforced by nucleotide restrictions": on
+    # the members of the mutation space they pass anyway (C04), so a wrong flag cannot hide a breach
+    soft = list(problem.constraints)
 
     def feasible(t):
         problem.sequence = t
@@ -175,6 +177,17 @@ def gen_cases(rng, tier):
     for _ in range(N):
         p = gen_small(rng)
         cases.append(("run", json.dumps(p, sort_keys=True), rng.choice(["resolve_exhaustive", "optimize_exhaustive"])))
+    # an edit allowance given as a percentage, without location (the specification is a copy made at
+    # initialisation: its flags must be those of the copy)
+    for _ in range(N // 8):
+        n = rng.choice([4, 5])
+        seq = rdna(rng, n)
+        cs = [("AvoidChanges", kw(location=None, max_edits_percent=rng.choice([20, 40, 50])))]
+        if rng.random() < 0.5:
+            cs.append(("ForbidWord", kw(word=rng.choice(["AC", "GT", "TT", "A"]), location=None)))
+        os_ = [("CountLetter", kw(letter=rng.choice("ACGT"), boost=1.0, location=None))]
+        p0 = dict(seq=seq, constraints=tuple(cs), objectives=tuple(os_), cfg=problems.gen_settings(rng), np_seed=rng.randint(0, 10**6))
+        cases.append(("run", json.dumps(p0, sort_keys=True), rng.choice(["resolve_exhaustive", "optimize_exhaustive"])))
     # exactly one solution, placed first / last / anywhere in the enumeration order
     for _ in range(N // 4):
         n = rng.choice([6, 8, 10])
